@@ -30,6 +30,24 @@ def c01_bytes(run, v1, ed):
     return pr
 
 
+def _slides_into_proxy_deleted(run, bidx):
+    whole = {e[4]: e[0] for e in run["edits"] if e[0] in ("del", "delproxy") and e[1] == 0 and e[2] == run["block_sizes0"].get(e[4])}
+    if whole.get(bidx) != "del":
+        return False
+    j = bidx + 1
+    while whole.get(j) == "del":
+        j += 1
+    return whole.get(j) == "delproxy"
+
+
+def _hits_proxy_deleted(run, bidx):
+    whole = {e[4]: e[0] for e in run["edits"] if e[0] in ("del", "delproxy") and e[1] == 0 and e[2] == run["block_sizes0"].get(e[4])}
+    j = bidx
+    while whole.get(j) == "del":
+        j += 1
+    return whole.get(j) == "delproxy"
+
+
 def c02_labels(run, v1, ed):
     pr = []
     v0 = run["view0"]
@@ -50,6 +68,10 @@ def c02_labels(run, v1, ed):
                 pr.append(("C02/retarget_to_proxy-makes-labels-external", "%s at %s" % (name, got)))
             continue
         want = ed.label_pos(p, kinds0[name], bidx)
+        if got == "proxy" and _slides_into_proxy_deleted(run, bidx):
+            # the label's own block was deleted (labels slide to the next position) and the block at that next position was
+            # deleted with retarget_to_proxy (labels there become external): the statement allows either reading
+            continue
         if got != want:
             pr.append(("C02/label-designates-the-same-listing-position", "%s (%s label of block %d, was %d) at %s expected %d" % (name, kinds0[name], bidx, p, got, want)))
     # labels defined by patches
@@ -146,7 +168,9 @@ def c03_cfg(run, v1, ed):
     pr = []
     live = set(m.byte_blocks) | set(m.proxies)
     blocks = sorted((b for b in m.code_blocks if b.section.name == ".text"), key=lambda b: (b.address, b.size))
-    proxy_ends = {run["block_bases"][t] for t in run["proxy_deleted"]}
+    # output positions where a block deleted with retarget_to_proxy used to start (several blocks may be edited: original
+    # positions are mapped to output positions; nothing is inserted at the start of a wholly deleted block)
+    proxy_ends = {ed.out_before(run["block_bases"][t]) for t in run["proxy_deleted"]}
     for idx, b in enumerate(blocks):
         insns = list(MD.disasm(bytes(b.contents), b.address))
         if sum(i.size for i in insns) != b.size:
@@ -234,6 +258,8 @@ def c03_cfg(run, v1, ed):
             if not rets:
                 continue
             real = {t for t in rets if not isinstance(t, gtirb.ProxyBlock)}
+            # a call whose return site was deleted with retarget_to_proxy falls through to a proxy: the callee then returns to a proxy
+            sites = {t for t in sites if not isinstance(t, gtirb.ProxyBlock)}
             if sites and real != sites:
                 pr.append(("C03/returns-lead-to-the-return-sites-of-the-callers", "block %#x returns to %s, call sites %s" % (
                     b.address, sorted(t.address for t in real), sorted(t.address for t in sites if hasattr(t, "address")))))
@@ -339,6 +365,10 @@ def c06_functions(run, v1, ed):
         if whole:
             if got is not None:
                 pr.append(("C06/function-without-blocks-disappears", "%s still has entries %s" % (fname, got)))
+            continue
+        if not got and any(_hits_proxy_deleted(run, run["block_index_at"].get(e, 0)) for e in ents):
+            # the entry block (or the block the entry role slid to) was deleted with retarget_to_proxy: its symbols and incoming
+            # control flow become external (doc/Deletion.md) and the statement does not ask for a promotion in that case
             continue
         if got != exp_e:
             pr.append(("C06/entries-follow-the-code", "%s entries %s expected %s" % (fname, got, exp_e)))
